@@ -446,7 +446,9 @@ impl MixedColBuffer {
                 RawVal::Str(s) => string_col.push(&s),
                 RawVal::Int(i) => string_col.push(&i.to_string()),
                 RawVal::Float(f) => string_col.push(&f.to_string()),
-                RawVal::Null => {}
+                // NULL keeps its row: placeholder value, the `present` bitmap marks it as NULL
+                // (same representation as `push_nulls` on a string buffer)
+                RawVal::Null => string_col.push(""),
             }
         }
         string_col.finalize(name, present)
